@@ -82,6 +82,9 @@ pub enum FaultKind {
     Short(u8),
     /// Fail with EINTR without performing the call (std retries writes).
     Eintr,
+    /// A write that runs out of space half-way: this call is a short write (as `Short`), the
+    /// next write call of the worker fails with ENOSPC — a torn record is left in the file.
+    ShortThenFail(u8),
 }
 
 #[derive(Debug, Clone, Copy, PartialEq, Eq, Hash, Serialize, Deserialize)]
@@ -130,6 +133,8 @@ pub struct Ctl {
     pub main_tid: i32,
     /// First call seen that the trace cannot represent (see module doc).
     pub unsupported: Option<String>,
+    /// Set by `ShortThenFail`: the worker's next write fails with ENOSPC.
+    pending_write_fail: bool,
 }
 
 impl Ctl {
@@ -154,7 +159,7 @@ impl Ctl {
         for r in &self.faults {
             if r.target == target && n >= r.nth && (n - r.nth) < r.count {
                 self.faults_hit += 1;
-                if matches!(r.kind, FaultKind::Eio | FaultKind::Enospc) {
+                if matches!(r.kind, FaultKind::Eio | FaultKind::Enospc | FaultKind::ShortThenFail(_)) {
                     self.hard_faults_hit += 1;
                 }
                 return Some(r.kind);
@@ -249,6 +254,7 @@ pub fn begin(dir: &str) {
         hard_faults_hit: 0,
         main_tid: gettid(),
         unsupported: None,
+        pending_write_fail: false,
     }));
     ACTIVE.store(true, Ordering::SeqCst);
 }
@@ -567,6 +573,14 @@ unsafe fn do_write(fd: c_int, file: FileId, buf: *const c_void, n: size_t, at: O
         return raw_write(fd, buf, n, at);
     };
     let mut len = n;
+    if is_worker(c, tid) && c.pending_write_fail {
+        c.pending_write_fail = false;
+        c.faults_hit += 1;
+        c.hard_faults_hit += 1;
+        c.trace.push(Ev::WriteFail { file, tid });
+        set_errno(libc::ENOSPC);
+        return -1;
+    }
     if is_worker(c, tid) {
         match c.fault_for(FaultTarget::WorkerWrite) {
             Some(FaultKind::Eio) => {
@@ -586,6 +600,12 @@ unsafe fn do_write(fd: c_int, file: FileId, buf: *const c_void, n: size_t, at: O
             Some(FaultKind::Short(k)) => {
                 if n >= 2 {
                     len = 1 + (n - 2) * (k as usize) / 255;
+                }
+            }
+            Some(FaultKind::ShortThenFail(k)) => {
+                if n >= 2 {
+                    len = 1 + (n - 2) * (k as usize) / 255;
+                    c.pending_write_fail = true;
                 }
             }
             None => {}
